@@ -39,7 +39,7 @@ STEP_BUDGET_CURVED = 2_000_000_000  # curved: one operator legitimately needs up
 
 
 def budget(tier):
-    return 192 if tier == "quick" else 4000
+    return 192 if tier == "quick" else 2400
 
 
 STEPS = None
